@@ -747,9 +747,13 @@ pub fn finalize_with_monitors(w: &mut World, actor: &str, psbt: &mut Psbt, v: u6
             }
             // a key that is only known by its hash has to come from the key-origin fields
             let text = &w.env.inputs[i].spec.text;
-            if (text.contains("pkh(") || text.contains("pk_h(")) && before.inputs[i].bip32_derivation.is_empty() && before.inputs[i].tap_key_origins.is_empty() {
+            // (`Plan::update_psbt_input` records only what its own plan needs: an input updated that
+            // way lacks the keys of the other paths by design)
+            let recorded = before.inputs[i].bip32_derivation.len().max(before.inputs[i].tap_key_origins.len());
+            if (text.contains("pkh(") || text.contains("pk_h(")) && recorded < w.env.inputs[i].key_ids.len() {
                 continue;
             }
+            w.stats.probe("l2_finalize_checked");
             if crate::mon_ref::ref_exists_std(w, &before, i) == Some(true) {
                 let cls = format!("L2-finalize:{:?}:{}", w.env.inputs[i].kind, how.trim_end_matches('*'));
                 raise_class(
@@ -761,6 +765,39 @@ pub fn finalize_with_monitors(w: &mut World, actor: &str, psbt: &mut Psbt, v: u6
                     actor,
                 );
                 return false;
+            }
+        }
+    }
+    // ... and an input that was filled in from a plan must finalise once that plan can be completed
+    // from the PSBT's contents (the plan's own path; other paths need fields the plan did not record)
+    if w.mon.on("C02") && !w.mon.corruption && actor == "coord" && matches!(v % 6, 1 | 4) && !w.coord.crash_requested && w.violations.is_empty() {
+        for i in 0..n {
+            if w.env.inputs[i].foreign || was_final[i] || is_final(&psbt.inputs[i]) || !failed.contains(&i) || !w.env.inputs[i].sane {
+                continue;
+            }
+            let plan = match w.coord.plans.get(i).and_then(|p| p.as_ref()) {
+                Some(pi) if pi.used_for_update => pi.plan.clone(),
+                _ => continue,
+            };
+            if !before.inputs.iter().all(|inp| inp.witness_utxo.is_some() || inp.non_witness_utxo.is_some()) {
+                continue;
+            }
+            let env = w.env.clone();
+            let sat = WorldSat::from_psbt(&env.uni, &env.by_expr, &before, i);
+            w.stats.probe("l2_finalize_planned_checked");
+            if let Some(Ok((wit, ss))) = guard(w, "Plan::satisfy", actor, |_| plan.satisfy(&sat)) {
+                if exec_spend(w, &before.unsigned_tx, i, &wit, &ss, Flags::STANDARD).is_ok() {
+                    let cls = format!("L2-finalize:{:?}:planned:{}", w.env.inputs[i].kind, how.trim_end_matches('*'));
+                    raise_class(
+                        w,
+                        "C02",
+                        "L2-finalize",
+                        cls,
+                        format!("{} reports input {} as not finalisable although it was filled in with Plan::update_psbt_input and that plan completes to a standard spend from the PSBT's contents: {}", how, i, w.env.inputs[i].spec.text),
+                        actor,
+                    );
+                    return false;
+                }
             }
         }
     }
